@@ -282,6 +282,16 @@ impl Transaction {
             let (input_slips, output_slips) =
                 wallet.generate_slips(total_requested, network, latest_block_id, genesis_period);
 
+            // part of the balance can be too close to the end of the genesis period to be used
+            let total_selected: u128 = input_slips.iter().map(|slip| slip.amount as u128).sum();
+            if total_selected < total_requested as u128 {
+                debug!(
+                    "usable slips do not cover the transaction. required : {:?} usable : {:?}",
+                    total_requested, total_selected
+                );
+                return Err(Error::from(ErrorKind::NotFound));
+            }
+
             for input in input_slips {
                 transaction.add_from_slip(input);
             }
